@@ -97,6 +97,37 @@ def _worker(items, base):
     return out
 
 
+def _worker_routers(items, base):
+    """approval and clear-state programs of Router configurations (action shapes, clear-state variants, method
+    pairs): the same abstract exploration"""
+    from . import c08
+    out = _new_out()
+    cnt, oc = out["counters"], out["outcomes"]
+    for case in items:
+        for ver in (6, 8, 10):
+            try:
+                texts = c08.programs_for(case, ver)
+            except Exception:
+                oc["router_not_built"] = oc.get("router_not_built", 0) + 1
+                continue
+            cfg = rb.Cfg(ver, "A")
+            for which, text in zip(("approval", "clear"), texts):
+                p, an = analyse_text(text, cfg)
+                cnt["traces_validated"] = cnt.get("traces_validated", 0) + 1
+                cnt["abstract_states"] = cnt.get("abstract_states", 0) + an.states
+                cnt["abstract_transitions"] = cnt.get("abstract_transitions", 0) + an.transitions
+                cnt["routines"] = cnt.get("routines", 0) + an.routines
+                for rid, ln, msg in an.issues[:3]:
+                    out["violations"].append({
+                        "driver": "router-" + which, "size": 1,
+                        "title": "router-%s: %s at line %d of %s (v%d)" % (which, msg, ln, rid, ver),
+                        "recipe": {"router": case, "program": which}, "cfg": cfg.to_json(), "issue": [rid, ln, msg], "teal": text,
+                        "features": {"kind": "router", "driver": "router-" + which, "static": True}})
+        cnt["states"] = cnt.get("states", 0) + 1
+        cnt["transitions"] = cnt.get("transitions", 0) + 6
+    return out
+
+
 def run(tier):
     global _CFGS
     rep = common.Report(PID, tier)
@@ -136,6 +167,11 @@ def run(tier):
     rep.bounds["recipes"] = len(items)
     for sh in common.pmap_shards(_worker, items, order_seed=rep.seed):
         rep.merge(sh)
+    from . import c04
+    ritems = c04.router_items(tier)
+    rep.bounds["routers"] = len(ritems)
+    for sh in common.pmap_shards(_worker_routers, ritems, order_seed=rep.seed):
+        rep.merge(sh)
     rep.counters["distinct_nontrivial"] = rep.counters.get("states", 0)
     rep.assumptions = ["opcode stack signatures of vf/avm/spec.py", "callsub summaries inferred per routine (proto A R, or net height of the scratch convention)"]
     if not rep.counters.get("abstract_states"):
@@ -145,7 +181,11 @@ def run(tier):
 
 def replay(case):
     cfg = rb.Cfg.from_json(case["cfg"])
-    if "native" in case["recipe"]:
+    if "router" in case["recipe"]:
+        from . import c08
+        texts = c08.programs_for(case["recipe"]["router"], cfg.version)
+        st, text = "ok", (texts[0] if case["recipe"]["program"] == "approval" else texts[1])
+    elif "native" in case["recipe"]:
         st, text = gen_abisub.compile_native(case["recipe"]["native"], cfg)
     else:
         st, text = drive.compile_recipe(case["recipe"], cfg)
